@@ -232,6 +232,136 @@ def tables(rec_h, values, dicts):
             "let pk := tbl_ohash [" + "; ".join(f"({cq_optsval(d)}, {cq_bytes(pickle_dumps(d))})" for d in dicts) + "] in ")
 
 
+# ------------------------------------------------------------------ workflows under the real Scheduler
+_WF = {}
+
+
+def wf_tasks():
+    """A fixed family of tasks interpreting a JSON workflow spec (defined once per process)."""
+    if _WF:
+        return _WF
+    from redun import task
+    from redun.scheduler import cond
+
+    def make(k):
+        t = _WF[k["task"]]
+        if k.get("export"):
+            t = t.export_options(**k["export"])
+        if k.get("options"):
+            t = t.options(**k["options"])
+        e = t(k if k["task"].startswith("node") else k.get("x", 1))
+        if k.get("cond"):
+            c = cond.options(**k["cond"]) if isinstance(k["cond"], dict) and k["cond"] else cond
+            e = c(True, e, 0)
+        return e
+
+    @task(namespace="c18_wf", cache=False)
+    def leaf(x):
+        return x
+
+    @task(namespace="c18_wf", cache=False, export_options={"memory": 4})
+    def leaf_exp(x):
+        return x
+
+    @task(namespace="c18_wf", cache=False)
+    def node(spec):
+        return [make(k) for k in spec["kids"]]
+
+    @task(namespace="c18_wf", cache=False, export_options={"vcpus": 2})
+    def node_exp(spec):
+        return [make(k) for k in spec["kids"]]
+    _WF.update(leaf=leaf, leaf_exp=leaf_exp, node=node, node_exp=node_exp, make=make)
+    return _WF
+
+
+class ExprRecorder:
+    """Observes (never alters) every TaskExpression / SchedulerExpression at construction: the object and
+    copies of its option dict and export set as constructed."""
+
+    def __init__(self):
+        self.mod = importlib.import_module("redun.expression")
+        self.orig = self.mod.TaskExpression.__init__
+        self.seen = []
+        rec = self
+
+        def init(self_, *a, **k):
+            rec.orig(self_, *a, **k)
+            rec.seen.append((self_, copy.deepcopy(self_.__dict__.get("_options")),
+                             set(self_.__dict__.get("_export_options", ()))))
+        self.init = init
+
+    def __enter__(self):
+        self.mod.TaskExpression.__init__ = self.init
+        return self
+
+    def __exit__(self, *a):
+        self.mod.TaskExpression.__init__ = self.orig
+
+
+def gen_workflow(rng, depth=2):
+    def kid(d):
+        kind = rng.choice(["leaf", "leaf", "leaf_exp", "node", "node_exp"]) if d > 0 else rng.choice(["leaf", "leaf_exp"])
+        k = {"task": kind, "x": rng.randint(0, 3)}
+        if rng.random() < 0.5:
+            k["export"] = {kk: rng.randint(1, 3) for kk in rng.sample(["memory", "vcpus", "x_a", "x_b"], rng.randint(1, 2))}
+        if rng.random() < 0.3:
+            k["options"] = {rng.choice(["x_c", "memory", "x_a"]): rng.randint(1, 3)}
+        if rng.random() < 0.2:
+            k["cond"] = rng.choice([True, {"x_d": 1}])
+        if kind.startswith("node"):
+            k["kids"] = [kid(d - 1) for _ in range(rng.randint(1, 3))]
+        return k
+    return {"task": "node", "kids": [kid(depth) for _ in range(rng.randint(1, 3))]}
+
+
+def run_workflow(spec):
+    """Run the workflow under a real Scheduler; -> list of violations (strings)."""
+    from redun import Scheduler
+    from redun.config import Config
+    from redun.utils import pickle_dumps
+    wf = wf_tasks()
+    task_sets = {n: set(t._export_options) for n, t in wf.items() if n != "make"}
+    d = scratch_dir("rv_c18_")
+    cwd = os.getcwd()
+    try:
+        os.chdir(d)
+        with ExprRecorder() as rec:
+            sched = Scheduler(config=Config({"backend": {"db_uri": "sqlite:///:memory:"}}))
+            sched.load()
+            sched.run(wf["make"](spec))
+    finally:
+        os.chdir(cwd)
+        shutil.rmtree(d, ignore_errors=True)
+    bad = []
+    for e, opts0, exp0 in rec.seen:
+        name = f"{type(e).__name__} {e.task_name}"
+        opts, exp = e.__dict__.get("_options"), e.__dict__.get("_export_options")
+        if exp != exp0:
+            bad.append(f"{name}: _export_options was {sorted(exp0)} when constructed and is {sorted(exp)} after the run")
+        if opts != opts0:
+            bad.append(f"{name}: _options was {opts0} when constructed and is {opts} after the run")
+        cached = e.__dict__.get("_hash")
+        if cached is not None:
+            fresh = type(e)(e.task_name, e.args, e.kwargs, task_options=copy.deepcopy(opts), export_options=set(exp),
+                            length=e.__dict__.get("_length")).get_hash()
+            if fresh != cached:
+                bad.append(f"{name}: cached hash {cached[:8]} is not the hash {fresh[:8]} of an equal, freshly built "
+                           f"expression")
+            try:
+                rt = pickle.loads(pickle_dumps(e)).get_hash()
+            except Exception as ex:  # noqa: a returned value the registry cannot serialise is not this property
+                rt = cached
+            if rt != cached:
+                bad.append(f"{name}: hash {cached[:8]} becomes {rt[:8]} after a pickle round trip")
+    for n, s0 in task_sets.items():
+        if wf[n]._export_options != s0:
+            bad.append(f"Task c18_wf.{n}: _export_options was {sorted(s0)} before the run and is "
+                       f"{sorted(wf[n]._export_options)} after it")
+            wf[n]._export_options.clear()
+            wf[n]._export_options.update(s0)      # keep the harness's own task objects usable for the next case
+    return bad, len(rec.seen)
+
+
 class Check(PropertyCheck):
     id = "C18"
     module = "Props.C18"
@@ -470,6 +600,30 @@ class Check(PropertyCheck):
             why = self.check_roundtrip(s)
             if why:
                 self.add("roundtrip:" + json.dumps(s, sort_keys=True), "pickle round trip: " + why, {"kind": "roundtrip", "spec": s})
+        # 4. expressions evaluated by the real Scheduler (exporting parents, nesting): nothing may change an
+        #    expression's options / exported options after construction, so that the cached hash stays the hash of
+        #    the call; smallest workflows first
+        flows = [{"task": "node", "kids": [{"task": "node", "export": {"x_a": 1}, "kids": [{"task": "leaf", "x": 1}]}]},
+                 {"task": "node", "kids": [{"task": "node", "export": {"x_a": 1},
+                                            "kids": [{"task": "leaf", "x": 1}, {"task": "leaf_exp", "x": 1}]}]},
+                 {"task": "node", "kids": [{"task": "node_exp", "kids": [{"task": "leaf", "x": 2, "cond": {"x_d": 1}},
+                                                                          {"task": "node", "export": {"vcpus": 3},
+                                                                           "kids": [{"task": "leaf_exp", "x": 0}]}]}]}]
+        flows += [gen_workflow(self.rng) for _ in range(20 if self.tier == "quick" else 300)]
+        nexpr = 0
+        for spec in flows:
+            n += 1
+            try:
+                bad, k = run_workflow(spec)
+            except Exception as ex:  # noqa
+                self.stat("oracle_skipped", "workflow:" + type(ex).__name__)
+                continue
+            nexpr += k
+            if bad:
+                self.add("workflow:expression-changed-by-run:" + json.dumps(spec, sort_keys=True),
+                         "after a run under the real Scheduler: " + "; ".join(bad[:4]), {"kind": "workflow", "spec": spec})
+        self.stat("oracle", "workflows", len(flows))
+        self.stat("oracle", "workflow_expressions_checked", nexpr)
         self.stat("oracle", "cases", n)
         self.stat("oracle", "small_scope_pairs", ss)
         self.evaluations += n
@@ -479,7 +633,7 @@ class Check(PropertyCheck):
         new = [f for f in self.findings[before:] if f.key not in KNOWN_KEYS]
         self.ob("oracle", f"implementation oracle: {n} cases (expressions differing in one component hash differently; "
                 f"pickle round trips keep hash/arguments/options and clear bookkeeping): nothing outside the "
-                f"registered defect", not new, "; ".join(sorted({f.key[:160] for f in new})[:6]))
+                f"registered defect; expressions run under the real Scheduler keep their options, exports and hash", not new, "; ".join(sorted({f.key[:160] for f in new})[:6]))
 
     def replay(self, doc):
         r = doc.get("replay", {})
@@ -491,6 +645,10 @@ class Check(PropertyCheck):
             why = self.check_roundtrip(r["spec"])
             print("replay:", why or "round trip holds now")
             return 1 if why else 0
+        if r.get("kind") == "workflow":
+            bad, k = run_workflow(r["spec"])
+            print(f"replay: {k} expressions constructed;", "; ".join(bad) if bad else "no expression was changed by the run")
+            return 1 if bad else 0
         if r.get("kind") == "merge":
             res, seen = self.merge_witness()
             print("replay: result", res, "ran for", seen)
